@@ -103,7 +103,7 @@ theorem replay_insert_logs_cut (s r : Store) (pt sch : Levels) (tbls : List (Byt
       have hne : table ≠ sysPages := fun he => h.tsys.1 (he ▸ List.mem_map.mpr ⟨(table, t), ht, rfl⟩)
       have hF : PtLike pt (setVal pt a1.key (s.hdr.nextLSN + 1) (ptRow table (rootOff t'))) :=
         .inr ⟨_, _, _, rfl⟩
-      refine ⟨s', _, _, r2, erun, hc', ?_, hc2, hself.repoint hentF hne hF.facts.2.1, hnf',
+      refine ⟨s', _, _, r2, erun, hc', ?_, hc2, hself.repoint hentF hne hF.facts.1, hnf',
         by rw [hh2]; exact hnf1, hlk', by rw [hh2]; exact hlk1', ?_, .inr ⟨hmove, hlsn', rfl, ?_⟩⟩
       · rw [replayAll_cons_ok' hrun1, replayAll_cons_ok' hrun2]; rfl
       · rw [hh2, hlsn']
